@@ -25,91 +25,99 @@ theorem carries_cases {v : JsVal} {fl : Flow} (h : Carries v fl) :
     · left; exact ⟨o, by rw [h]⟩
     · right; rename_i ex; obtain ⟨val, top⟩ := ex; simp at h; exact ⟨top, o, by rw [h]⟩
 
+/-- Everything script observed is a finally block, an iterator close, or a catch block / async rejection that
+received `v` itself. -/
+def LogOk (v : JsVal) (l : LogE) : Prop :=
+  l.kind = .fin ∨ l.kind = .caught v ∨ l.kind = .iterReturn ∨ l.kind = .asyncReject v
+
 /-- One frame that neither swallows nor (for a value with a Go error inside) unwraps: the value goes on,
 and whatever the frame's catch block logged is that very value. -/
 theorem applyFrame_carries (idx : Nat) (f : Frame) (cjs : Bool) {v : JsVal} {fl : Flow}
-    (hsw : f.swallows = false) (hu : v.goErrValue = none ∨ f.unwraps = false) (hc : Carries v fl) :
-    Carries v (applyFrame idx f cjs fl).1 ∧
-      ∀ l ∈ (applyFrame idx f cjs fl).2, l = ⟨idx, .fin⟩ ∨ l = ⟨idx, .caught v⟩ := by
+    (hsw : f.swallows = false) (hrw : f.rewraps = false)
+    (hu : v.goErrValue = none ∨ f.unwraps = false) (hc : Carries v fl) :
+    Carries v (applyFrame idx f cjs fl).1 ∧ ∀ l ∈ (applyFrame idx f cjs fl).2, LogOk v l := by
   rcases carries_cases hc with ⟨o, rfl⟩ | ⟨t, o, rfl⟩
   · cases f with
     | js k =>
       cases k <;> simp [Frame.swallows, JsKind.swallows, JsKind.hasCatch, JsKind.rethrows] at hsw <;>
         simp [applyFrame, jsFrame, handleThrow, handleThrowLoop, exceptionFromValue, JsKind.hasCatch,
-          JsKind.hasFinally, JsKind.rethrows, Carries]
+          JsKind.hasFinally, JsKind.rethrows, Carries, LogOk]
     | xfe =>
       rcases hu with hu | hu
       · cases cjs <;>
           simp [applyFrame, callable, invoke, jsCall, runWrapped, vmTry, handleThrow, handleThrowLoop,
             exceptionFromValue, wrapJSFuncE, returnErr, wrapReflectErr, hu, Carries]
       · simp [Frame.unwraps] at hu
+    | ja => simp [Frame.swallows] at hsw
+    | rfw => simp [Frame.rewraps] at hrw
     | _ =>
       cases cjs <;>
         simp [applyFrame, callable, invoke, jsCall, runWrapped, vmTry, handleThrow, handleThrowLoop,
           exceptionFromValue, panicErr, returnErr, wrapReflectErr, wrapJSFuncN, ErrVal.toPv, shim, jsFrame,
-          runProgram, runProgram.handleThrowOpt, JsKind.hasCatch, JsKind.hasFinally, Carries]
+          runProgram, runProgram.handleThrowOpt, JsKind.hasCatch, JsKind.hasFinally, Carries, panicValue, LogOk]
   · cases f with
     | js k =>
       cases k <;> simp [Frame.swallows, JsKind.swallows, JsKind.hasCatch, JsKind.rethrows] at hsw <;>
         simp [applyFrame, jsFrame, handleThrow, handleThrowLoop, exceptionFromValue, JsKind.hasCatch,
-          JsKind.hasFinally, JsKind.rethrows, Carries]
+          JsKind.hasFinally, JsKind.rethrows, Carries, LogOk]
     | xfe =>
       rcases hu with hu | hu
       · cases cjs <;>
           simp [applyFrame, callable, invoke, jsCall, runWrapped, vmTry, handleThrow, handleThrowLoop,
             exceptionFromValue, wrapJSFuncE, returnErr, wrapReflectErr, hu, Carries]
       · simp [Frame.unwraps] at hu
+    | ja => simp [Frame.swallows] at hsw
+    | rfw => simp [Frame.rewraps] at hrw
     | _ =>
       cases cjs <;>
         simp [applyFrame, callable, invoke, jsCall, runWrapped, vmTry, handleThrow, handleThrowLoop,
           exceptionFromValue, panicErr, returnErr, wrapReflectErr, wrapJSFuncN, ErrVal.toPv, shim, jsFrame,
-          runProgram, runProgram.handleThrowOpt, JsKind.hasCatch, JsKind.hasFinally, Carries]
+          runProgram, runProgram.handleThrowOpt, JsKind.hasCatch, JsKind.hasFinally, Carries, panicValue, LogOk]
 
 
-/-- A swallowing catch receives the value and ends the propagation. -/
+/-- A swallowing catch (or an async function) receives the value and ends the propagation. -/
 theorem applyFrame_swallow (idx : Nat) (f : Frame) (cjs : Bool) {v : JsVal} {fl : Flow}
     (hsw : f.swallows = true) (hc : Carries v fl) :
-    (applyFrame idx f cjs fl).1 = .normal ∧
-      ∀ l ∈ (applyFrame idx f cjs fl).2, l = ⟨idx, .fin⟩ ∨ l = ⟨idx, .caught v⟩ := by
+    (applyFrame idx f cjs fl).1 = .normal ∧ ∀ l ∈ (applyFrame idx f cjs fl).2, LogOk v l := by
   cases f <;> simp [Frame.swallows] at hsw
-  rename_i k
-  rcases carries_cases hc with ⟨o, rfl⟩ | ⟨t, o, rfl⟩ <;>
-    cases k <;> simp [JsKind.swallows, JsKind.hasCatch, JsKind.rethrows] at hsw <;>
-      simp [applyFrame, jsFrame, handleThrow, handleThrowLoop, exceptionFromValue, JsKind.hasCatch,
-        JsKind.hasFinally, JsKind.rethrows]
-
-def LogOk (v : JsVal) (l : LogE) : Prop := l.kind = .fin ∨ l.kind = .caught v
+  · rename_i k
+    rcases carries_cases hc with ⟨o, rfl⟩ | ⟨t, o, rfl⟩ <;>
+      cases k <;> simp [JsKind.swallows, JsKind.hasCatch, JsKind.rethrows] at hsw <;>
+        simp [applyFrame, jsFrame, handleThrow, handleThrowLoop, exceptionFromValue, JsKind.hasCatch,
+          JsKind.hasFinally, JsKind.rethrows, LogOk]
+  · rcases carries_cases hc with ⟨o, rfl⟩ | ⟨t, o, rfl⟩ <;>
+      simp [applyFrame, handleThrow, handleThrowLoop, exceptionFromValue, LogOk]
 
 theorem evalSeg_carries (s : Seg) (ijs : Bool) {v : JsVal} {fl : Flow}
-    (hsw : ∀ q ∈ s, q.2.swallows = false)
+    (hsw : ∀ q ∈ s, q.2.swallows = false) (hrw : ∀ q ∈ s, q.2.rewraps = false)
     (hu : v.goErrValue = none ∨ ∀ q ∈ s, q.2.unwraps = false) (hc : Carries v fl) :
     Carries v (evalSeg s fl ijs).1 ∧ ∀ l ∈ (evalSeg s fl ijs).2, LogOk v l := by
   induction s with
   | nil => exact ⟨hc, by simp [evalSeg]⟩
   | cons hd tl ih =>
     obtain ⟨i, f⟩ := hd
-    have hsw' : ∀ q ∈ tl, q.2.swallows = false := fun q hq => hsw q (List.mem_cons_of_mem _ hq)
     have hu' : v.goErrValue = none ∨ ∀ q ∈ tl, q.2.unwraps = false := by
       rcases hu with h | h
       · exact Or.inl h
       · exact Or.inr (fun q hq => h q (List.mem_cons_of_mem _ hq))
-    obtain ⟨ih1, ih2⟩ := ih hsw' hu'
+    obtain ⟨ih1, ih2⟩ := ih (fun q hq => hsw q (List.mem_cons_of_mem _ hq))
+      (fun q hq => hrw q (List.mem_cons_of_mem _ hq)) hu'
     have hf : v.goErrValue = none ∨ f.unwraps = false := by
       rcases hu with h | h
       · exact Or.inl h
       · exact Or.inr (h (i, f) (List.mem_cons_self ..))
-    obtain ⟨a1, a2⟩ := applyFrame_carries i f (headIsJS tl ijs) (hsw (i, f) (List.mem_cons_self ..)) hf ih1
+    obtain ⟨a1, a2⟩ := applyFrame_carries i f (headIsJS tl ijs) (hsw (i, f) (List.mem_cons_self ..))
+      (hrw (i, f) (List.mem_cons_self ..)) hf ih1
     refine ⟨by simpa [evalSeg] using a1, ?_⟩
     intro l hl
     simp only [evalSeg, List.mem_append] at hl
     rcases hl with hl | hl
     · exact ih2 l hl
-    · rcases a2 l hl with rfl | rfl
-      · exact Or.inl rfl
-      · exact Or.inr rfl
+    · exact a2 l hl
 
 /-- With swallowing frames allowed: the flow stays "carries v" or has become normal; every catch saw v. -/
 theorem evalSeg_carries_or_normal (s : Seg) (ijs : Bool) {v : JsVal} {fl : Flow}
+    (hrw : ∀ q ∈ s, q.2.rewraps = false)
     (hu : v.goErrValue = none ∨ ∀ q ∈ s, q.2.unwraps = false) (hc : fl = .normal ∨ Carries v fl) :
     ((evalSeg s fl ijs).1 = .normal ∨ Carries v (evalSeg s fl ijs).1) ∧
       ∀ l ∈ (evalSeg s fl ijs).2, LogOk v l := by
@@ -121,7 +129,7 @@ theorem evalSeg_carries_or_normal (s : Seg) (ijs : Bool) {v : JsVal} {fl : Flow}
       rcases hu with h | h
       · exact Or.inl h
       · exact Or.inr (fun q hq => h q (List.mem_cons_of_mem _ hq))
-    obtain ⟨ih1, ih2⟩ := ih hu'
+    obtain ⟨ih1, ih2⟩ := ih (fun q hq => hrw q (List.mem_cons_of_mem _ hq)) hu'
     have hf : v.goErrValue = none ∨ f.unwraps = false := by
       rcases hu with h | h
       · exact Or.inl h
@@ -137,18 +145,11 @@ theorem evalSeg_carries_or_normal (s : Seg) (ijs : Bool) {v : JsVal} {fl : Flow}
       · cases hs : f.swallows with
         | true =>
           obtain ⟨a1, a2⟩ := applyFrame_swallow i f (headIsJS tl ijs) hs hcar
-          refine ⟨Or.inl a1, ?_⟩
-          intro l hl
-          rcases a2 l hl with rfl | rfl
-          · exact Or.inl rfl
-          · exact Or.inr rfl
+          exact ⟨Or.inl a1, a2⟩
         | false =>
-          obtain ⟨a1, a2⟩ := applyFrame_carries i f (headIsJS tl ijs) hs hf hcar
-          refine ⟨Or.inr a1, ?_⟩
-          intro l hl
-          rcases a2 l hl with rfl | rfl
-          · exact Or.inl rfl
-          · exact Or.inr rfl
+          obtain ⟨a1, a2⟩ := applyFrame_carries i f (headIsJS tl ijs) hs
+            (hrw (i, f) (List.mem_cons_self ..)) hf hcar
+          exact ⟨Or.inr a1, a2⟩
     refine ⟨by simpa [evalSeg] using key.1, ?_⟩
     intro l hl
     simp only [evalSeg, List.mem_append] at hl
@@ -169,6 +170,9 @@ theorem firstCall_carries (entry : Entry) (b : Bool) {v : JsVal} {fl : Flow} (hc
 
 /-! ## Segments come from the chain -/
 
+/-- Does some frame of the chain defer the rest to a promise job? -/
+def hasSplit (chain : List Frame) : Bool := chain.any Frame.isSplit
+
 theorem indexed_mem (fs : List Frame) : ∀ i q, q ∈ indexed i fs → q.2 ∈ fs := by
   induction fs with
   | nil => intro i q h; simp [indexed] at h
@@ -184,20 +188,16 @@ theorem splitSegs_mem (l : List (Nat × Frame)) :
   induction l with
   | nil => simp [splitSegs]
   | cons hd tl ih =>
-    obtain ⟨i, f⟩ := hd
     obtain ⟨ih1, ih2⟩ := ih
-    by_cases hf : f = .pr
-    · subst hf
-      simp only [splitSegs]
+    by_cases hf : hd.2.isSplit = true
+    · simp only [splitSegs, hf, ↓reduceIte]
       refine ⟨by simp, ?_⟩
       intro s hs q hq
       simp only [List.mem_cons] at hs
       rcases hs with rfl | hs
       · exact List.mem_cons_of_mem _ (ih1 q hq)
       · exact List.mem_cons_of_mem _ (ih2 s hs q hq)
-    · have hsp : splitSegs ((i, f) :: tl) = ((i, f) :: (splitSegs tl).1, (splitSegs tl).2) := by
-        cases f <;> simp_all [splitSegs]
-      rw [hsp]
+    · simp only [splitSegs, hf, Bool.false_eq_true, ↓reduceIte]
       refine ⟨?_, ?_⟩
       · intro q hq
         simp only [List.mem_cons] at hq
@@ -217,47 +217,43 @@ theorem allSegs_frames {P : Frame → Prop} (chain : List Frame) (h : ∀ f ∈ 
   · exact h _ (indexed_mem chain 0 q (hm.1 q hq))
   · exact h _ (indexed_mem chain 0 q (hm.2 s hs q hq))
 
-
-theorem splitSegs_snd_nil_iff (fs : List Frame) : ∀ i, (splitSegs (indexed i fs)).2 = [] ↔ Frame.pr ∉ fs := by
+theorem splitSegs_snd_nil_iff (fs : List Frame) : ∀ i, (splitSegs (indexed i fs)).2 = [] ↔ hasSplit fs = false := by
   induction fs with
-  | nil => intro i; simp [indexed, splitSegs]
+  | nil => intro i; simp [indexed, splitSegs, hasSplit]
   | cons f tl ih =>
     intro i
-    by_cases hf : f = .pr
-    · subst hf; simp [indexed, splitSegs]
-    · have hsp : splitSegs ((i, f) :: indexed (i + 1) tl) =
-          ((i, f) :: (splitSegs (indexed (i + 1) tl)).1, (splitSegs (indexed (i + 1) tl)).2) := by
-        cases f <;> simp_all [splitSegs]
-      simp only [indexed, hsp, List.mem_cons, not_or]
-      rw [ih (i + 1)]
-      constructor
-      · intro h; exact ⟨fun h' => hf h'.symm, h⟩
-      · intro h; exact h.2
+    by_cases hf : f.isSplit = true
+    · simp [indexed, splitSegs, hf, hasSplit]
+    · have := ih (i + 1)
+      simp only [hasSplit] at this
+      simp [indexed, splitSegs, hf, hasSplit, this]
 
 /-! ## Promise jobs and the host, for a carried value -/
 
 theorem runJobs_carries (p : Payload) {v : JsVal} (hp : Carries v p.flow) :
     ∀ ss : List Seg, ss ≠ [] → (∀ s ∈ ss, ∀ q ∈ s, q.2.swallows = false) →
+      (∀ s ∈ ss, ∀ q ∈ s, q.2.rewraps = false) →
       (v.goErrValue = none ∨ ∀ s ∈ ss, ∀ q ∈ s, q.2.unwraps = false) →
       (runJobs p ss).host = .ok ∧ (runJobs p ss).rej = [v] ∧ ∀ l ∈ (runJobs p ss).log, LogOk v l := by
   intro ss
   induction ss with
   | nil => intro hne; exact absurd rfl hne
   | cons s tl ih =>
-    intro _ hsw hu
-    have hsw_s : ∀ q ∈ s, q.2.swallows = false := hsw s (List.mem_cons_self ..)
+    intro _ hsw hrw hu
     have hu_s : v.goErrValue = none ∨ ∀ q ∈ s, q.2.unwraps = false := by
       rcases hu with h | h
       · exact Or.inl h
       · exact Or.inr (h s (List.mem_cons_self ..))
     cases tl with
     | nil =>
-      obtain ⟨c1, c2⟩ := evalSeg_carries s p.isJS hsw_s hu_s hp
+      obtain ⟨c1, c2⟩ := evalSeg_carries s p.isJS (hsw s (List.mem_cons_self ..))
+        (hrw s (List.mem_cons_self ..)) hu_s hp
       obtain ⟨e, he, hev⟩ := vmTry_invoke_carries (headIsJS s p.isJS) c1
       simp only [runJobs, segInner, List.isEmpty_nil, ↓reduceIte, he, hev, List.append_nil]
       exact ⟨(by first | trivial | rfl), (by first | trivial | rfl), c2⟩
     | cons s2 tl2 =>
       have ih' := ih (by simp) (fun s' hs' => hsw s' (List.mem_cons_of_mem _ hs'))
+        (fun s' hs' => hrw s' (List.mem_cons_of_mem _ hs'))
         (by rcases hu with h | h
             · exact Or.inl h
             · exact Or.inr (fun s' hs' => h s' (List.mem_cons_of_mem _ hs')))
@@ -272,25 +268,27 @@ theorem runJobs_carries (p : Payload) {v : JsVal} (hp : Carries v p.flow) :
       · exact Or.inl (evalSeg_normal_log s true l hl)
       · exact ih'.2.2 l hl
 
-/-- Swallowing frames allowed: whatever the jobs log is a finally or a catch of `v`. -/
+/-- Swallowing frames allowed: whatever the jobs log is a finally / iterator close or a catch of `v`. -/
 theorem runJobs_log_ok (p : Payload) {v : JsVal} (hp : Carries v p.flow) :
-    ∀ ss : List Seg, (v.goErrValue = none ∨ ∀ s ∈ ss, ∀ q ∈ s, q.2.unwraps = false) →
+    ∀ ss : List Seg, (∀ s ∈ ss, ∀ q ∈ s, q.2.rewraps = false) →
+      (v.goErrValue = none ∨ ∀ s ∈ ss, ∀ q ∈ s, q.2.unwraps = false) →
       ∀ l ∈ (runJobs p ss).log, LogOk v l := by
   intro ss
   induction ss with
-  | nil => intro _ l hl; simp [runJobs] at hl
+  | nil => intro _ _ l hl; simp [runJobs] at hl
   | cons s tl ih =>
-    intro hu
+    intro hrw hu
     have hu_s : v.goErrValue = none ∨ ∀ q ∈ s, q.2.unwraps = false := by
       rcases hu with h | h
       · exact Or.inl h
       · exact Or.inr (h s (List.mem_cons_self ..))
-    have ih' := ih (by rcases hu with h | h
-                       · exact Or.inl h
-                       · exact Or.inr (fun s' hs' => h s' (List.mem_cons_of_mem _ hs')))
+    have ih' := ih (fun s' hs' => hrw s' (List.mem_cons_of_mem _ hs'))
+      (by rcases hu with h | h
+          · exact Or.inl h
+          · exact Or.inr (fun s' hs' => h s' (List.mem_cons_of_mem _ hs')))
     have hin : (segInner p tl.isEmpty).1 = .normal ∨ Carries v (segInner p tl.isEmpty).1 := by
       cases tl <;> simp [segInner, hp]
-    obtain ⟨_, c2⟩ := evalSeg_carries_or_normal s (segInner p tl.isEmpty).2 hu_s hin
+    obtain ⟨_, c2⟩ := evalSeg_carries_or_normal s (segInner p tl.isEmpty).2 (hrw s (List.mem_cons_self ..)) hu_s hin
     intro l hl
     simp only [runJobs] at hl
     split at hl
@@ -314,13 +312,14 @@ theorem finish_exc (entry : Entry) (e : Exc)
 
 /-- Host-level statement for a carried value; `hu`: nothing on the way unwraps a Go error out of `v`. -/
 theorem hostRun_carries (entry : Entry) (chain : List Frame) (p : Payload) {v : JsVal}
-    (hp : Carries v p.flow) (hsw : ∀ f ∈ chain, f.swallows = false)
+    (hp : Carries v p.flow) (hsw : ∀ f ∈ chain, f.swallows = false) (hrw : ∀ f ∈ chain, f.rewraps = false)
     (hu : v.goErrValue = none ∨ (entry ≠ .exported ∧ ∀ f ∈ chain, f.unwraps = false)) :
-    (Frame.pr ∉ chain → ∃ ex, (hostRun entry chain p).host = .err (.exc ex) ∧ ex.val = v ∧
+    (hasSplit chain = false → ∃ ex, (hostRun entry chain p).host = .err (.exc ex) ∧ ex.val = v ∧
         (hostRun entry chain p).rej = []) ∧
-    (Frame.pr ∈ chain → (hostRun entry chain p).host = .ok ∧ (hostRun entry chain p).rej = [v]) ∧
+    (hasSplit chain = true → (hostRun entry chain p).host = .ok ∧ (hostRun entry chain p).rej = [v]) ∧
     (∀ l ∈ (hostRun entry chain p).log, LogOk v l) := by
   have hsegsw := allSegs_frames (P := fun f => f.swallows = false) chain hsw
+  have hsegrw := allSegs_frames (P := fun f => f.rewraps = false) chain hrw
   have hsegu : v.goErrValue = none ∨ ∀ s ∈ allSegs chain, ∀ q ∈ s, q.2.unwraps = false := by
     rcases hu with h | h
     · exact Or.inl h
@@ -329,16 +328,16 @@ theorem hostRun_carries (entry : Entry) (chain : List Frame) (p : Payload) {v : 
   simp only [hostRun, allSegs] at *
   generalize splitSegs (indexed 0 chain) = sg at *
   obtain ⟨s0, ss⟩ := sg
-  simp only at hsegsw hsegu hpr
-  have hsw0 : ∀ q ∈ s0, q.2.swallows = false := hsegsw s0 (List.mem_cons_self ..)
+  simp only at hsegsw hsegrw hsegu hpr
   have hu0 : v.goErrValue = none ∨ ∀ q ∈ s0, q.2.unwraps = false := by
     rcases hsegu with h | h
     · exact Or.inl h
     · exact Or.inr (h s0 (List.mem_cons_self ..))
   cases ss with
   | nil =>
-    have hnpr : Frame.pr ∉ chain := hpr.mp rfl
-    obtain ⟨c1, c2⟩ := evalSeg_carries s0 p.isJS hsw0 hu0 hp
+    have hnpr : hasSplit chain = false := hpr.mp rfl
+    obtain ⟨c1, c2⟩ := evalSeg_carries s0 p.isJS (hsegsw s0 (List.mem_cons_self ..))
+      (hsegrw s0 (List.mem_cons_self ..)) hu0 hp
     obtain ⟨e, he, hev⟩ := firstCall_carries entry (headIsJS s0 p.isJS) c1
     have hfin : finish entry (.err (.exc e)) = .err (.exc e) := by
       apply finish_exc
@@ -347,14 +346,18 @@ theorem hostRun_carries (entry : Entry) (chain : List Frame) (p : Payload) {v : 
       · exact Or.inr h.1
     simp only [hostRunSegs, segInner, List.isEmpty_nil, ↓reduceIte, he, ranLeave, runJobs, mergeJobs, hfin,
       CallRes.toHost, List.append_nil]
-    exact ⟨fun _ => ⟨e, (by first | trivial | rfl), hev, (by first | trivial | rfl)⟩, fun h => absurd h hnpr, c2⟩
+    refine ⟨fun _ => ⟨e, (by first | trivial | rfl), hev, (by first | trivial | rfl)⟩, ?_, c2⟩
+    intro h
+    rw [hnpr] at h
+    cases h
   | cons s1 tl =>
-    have hprin : Frame.pr ∈ chain := by
-      by_cases h : Frame.pr ∈ chain
-      · exact h
-      · exact absurd (hpr.mpr h) (by simp)
+    have hprin : hasSplit chain = true := by
+      cases h : hasSplit chain with
+      | true => rfl
+      | false => exact absurd (hpr.mpr h) (by simp)
     obtain ⟨j1, j2, j3⟩ := runJobs_carries p hp (s1 :: tl) (by simp)
       (fun s hs => hsegsw s (List.mem_cons_of_mem _ hs))
+      (fun s hs => hsegrw s (List.mem_cons_of_mem _ hs))
       (by rcases hsegu with h | h
           · exact Or.inl h
           · exact Or.inr (fun s hs => h s (List.mem_cons_of_mem _ hs)))
@@ -364,7 +367,10 @@ theorem hostRun_carries (entry : Entry) (chain : List Frame) (p : Payload) {v : 
     have hfin : finish entry .ok = .ok := by cases entry <;> simp [finish, wrapJSFuncE]
     simp only [hostRunSegs, segInner, List.isEmpty_cons, Bool.false_eq_true, ↓reduceIte, hn, hf, ranLeave, j1, j2,
       mergeJobs, hfin, CallRes.toHost]
-    refine ⟨fun h => absurd hprin h, fun _ => ⟨(by first | trivial | rfl), (by first | trivial | rfl)⟩, ?_⟩
+    refine ⟨?_, fun _ => ⟨(by first | trivial | rfl), (by first | trivial | rfl)⟩, ?_⟩
+    · intro h
+      rw [hprin] at h
+      cases h
     intro l hl
     simp only [List.mem_append] at hl
     rcases hl with hl | hl
